@@ -172,6 +172,7 @@ pub fn compare(stored: &Snapshot, reference: &Snapshot, floor: u64, limit: Optio
 pub const NOT_CONSULTED: &str = "import did not consult the node: target at or below the highest stored block";
 
 pub const BEFORE_FIRST: &str = "C13 roll-back to a point before the first stored block is ignored by the store";
+pub const LOST_AFTER_FAILED_WRITE: &str = "C13 blocks polled before a failed write are lost when the resume point is no longer on the node's chain";
 pub const STREAMER_SKIP: &str = "C13 roll-back to the streamer's starting point received after roll-forwards is skipped by the streamer";
 pub const PRUNED_RANGE: &str = "C13 block range root recomputed over pruned blocks after a roll-back into a partly pruned range";
 pub const PRUNED_ROOTS_CLASS: &str = "C13 block range root recomputed over pruned blocks";
@@ -266,12 +267,20 @@ pub fn cause(log: &ReaderLog, before: &Snapshot, first_import_after_restart: boo
 
 /// One signature per root cause: when the import saw one of the two triggers below, whatever
 /// disagreement follows (abandoned blocks, foreign key failure, wrong roots) is filed under it.
-pub fn root_cause(log: &ReaderLog, before: &Snapshot) -> Option<&'static str> {
+///
+/// `after_failed_write`: the previous import of this process (same chain-sync connection) ended
+/// with a reported store failure after blocks had been polled. The importer's resume cursor was
+/// (rightly) not advanced, but the connection's read pointer was; when the cursor is no longer on
+/// the node's chain `find_intersect` misses, `PallasChainReader` ignores the miss and the stream
+/// goes on AFTER the blocks that were never written.
+pub fn root_cause(log: &ReaderLog, before: &Snapshot, after_failed_write: bool) -> Option<&'static str> {
     let w = walk(log, before);
     if w.skipped_genuine {
         Some(STREAMER_SKIP)
     } else if w.before_first {
         Some(BEFORE_FIRST)
+    } else if after_failed_write && w.not_found {
+        Some(LOST_AFTER_FAILED_WRITE)
     } else {
         None
     }
